@@ -161,7 +161,7 @@ pub fn judge(case: &Case, kf: &ActiveKf) -> Verdict {
             let cmp_q = |s2: &eval::RefResult| -> bool {
                 match compare(&rows, s2, &case.modes) {
                     Ok(()) => true,
-                    Err(d2) if tie && d2.starts_with("ORDER BY violated") => {
+                    Err(d2) if tie && (d2.starts_with("ORDER BY violated") || d2.starts_with("window sort keys differ")) => {
                         norm::INT_FIRST_ON_NUMERIC_TIE.with(|c| c.set(true));
                         let r = compare(&rows, s2, &case.modes);
                         norm::INT_FIRST_ON_NUMERIC_TIE.with(|c| c.set(false));
@@ -170,7 +170,7 @@ pub fn judge(case: &Case, kf: &ActiveKf) -> Verdict {
                     Err(_) => false,
                 }
             };
-            if tie && d.starts_with("ORDER BY violated") && cmp_q(&spec) {
+            if tie && (d.starts_with("ORDER BY violated") || d.starts_with("window sort keys differ")) && cmp_q(&spec) {
                 return Verdict::Known("KF-C01-12");
             }
             let act: Vec<&'static str> = QUIRK_KFS.iter().cloned().filter(|id| kf.has(id)).collect();
